@@ -140,6 +140,10 @@ func main() {
 					c.Sweeps(num(a[1]), num(a[2]), emit)
 					continue
 				}
+				if len(a) > 0 && str(a[0]) == "AutoRounds" {
+					c.AutoRounds(num(a[1]), emit)
+					continue
+				}
 				if len(a) > 0 && str(a[0]) == "SelectionStats" {
 					c.SelectionStats(str(a[1]), num(a[2]), emit)
 					continue
